@@ -727,6 +727,10 @@ func c19Config(sh *c19gen.Shared, env *execEnv) *interp.Config {
 		Environ:  []string{},
 		OpenFile: env.open,
 	}
+	if sh.Exec {
+		cfg.NoExec = false
+		cfg.Environ = []string{"PATH", "/usr/bin:/bin"}
+	}
 	if sh.Native {
 		cfg.Funcs = c19NativeFuncs
 	}
@@ -742,11 +746,31 @@ func c19Config(sh *c19gen.Shared, env *execEnv) *interp.Config {
 func c19Exec(prog *parser.Program, sh *c19gen.Shared, env *execEnv, api int, hist bool) (string, run.Outcome) {
 	cfg := c19Config(sh, env)
 	var out run.Outcome
+	var errFile *os.File
+	if sh.Exec {
+		// Children get Stdin and Error as they are. Files are handed to a child directly; for any
+		// other reader or writer os/exec starts a copying goroutine per child, which (for children
+		// alive at the same time, or abandoned after WaitDelay) would race on the caller's
+		// reader/buffer inside ONE execution: not what this property is about.
+		api = 1
+		if f, err := os.Open(os.DevNull); err == nil {
+			defer f.Close()
+			cfg.Stdin = f
+		}
+		_ = os.MkdirAll(env.priv+"-err", 0o755)
+		if f, err := os.CreateTemp(env.priv+"-err", "stderr"); err == nil {
+			errFile = f
+			defer func() { _ = f.Close(); _ = os.Remove(f.Name()) }()
+		}
+	}
 	if api == 0 {
 		out = run.Exec(prog, cfg, run.Opts{StepLimit: 400_000, Hist: hist})
 	} else {
 		var stdout, stderr bytes.Buffer
 		cfg.Output, cfg.Error = &stdout, &stderr
+		if errFile != nil {
+			cfg.Error = errFile
+		}
 		func() {
 			defer func() {
 				if r := recover(); r != nil {
@@ -760,6 +784,10 @@ func c19Exec(prog *parser.Program, sh *c19gen.Shared, env *execEnv, api int, his
 			}
 		}()
 		out.Stdout, out.Stderr = stdout.String(), stderr.String()
+		if errFile != nil {
+			b, _ := os.ReadFile(errFile.Name())
+			out.Stderr = string(b)
+		}
 	}
 	files := env.collect()
 	sig := fmt.Sprintf("%s err=%q stderr=%q panic=%q faults=%q files=%s", out.Sig(), out.Err, out.Stderr, firstLineOf(out.Panic), strings.Join(out.Faults, ";"), files)
@@ -982,8 +1010,9 @@ func c19SharedCase(c *core.Ctx, cs c19Case) {
 	checkUnchanged = watch(prog)
 	for rep := 0; rep < cs.Reps; rep++ {
 		type result struct {
-			execs    int
-			mismatch string
+			execs     int
+			artefacts int
+			mismatch  string
 		}
 		results := make([]result, cs.Goroutines)
 		start := make(chan struct{})
@@ -997,6 +1026,12 @@ func c19SharedCase(c *core.Ctx, cs c19Case) {
 				for e := 0; e < cs.Execs; e++ {
 					got, _ := c19Exec(prog, sh, env, (g+e)%apis, false)
 					results[g].execs++
+					if sh.Exec && strings.Contains(got, "WaitDelay expired") {
+						// os/exec gave up waiting (goawk sets WaitDelay = 250 ms) for its copier of the
+						// child's output on a loaded machine: wall-clock behaviour, not judged here
+						results[g].artefacts++
+						continue
+					}
 					if got != ref && results[g].mismatch == "" {
 						results[g].mismatch = got
 					}
@@ -1007,7 +1042,8 @@ func c19SharedCase(c *core.Ctx, cs c19Case) {
 		wg.Wait()
 		total := 0
 		for g, r := range results {
-			total += r.execs
+			total += r.execs - r.artefacts
+			c.Count("exec_waitdelay_artefacts_not_judged", r.artefacts)
 			if r.mismatch != "" {
 				c.Violation("shared-output-mismatch", "concurrent",
 					fmt.Sprintf("goroutine %d of %d executing one Program concurrently (own interpreter each) produced a result different from the single execution: %s",
@@ -1148,7 +1184,25 @@ func c19Run(c *core.Ctx) {
 				"goroutines": sz.goroutines, "execs_per_goroutine": sz.execs, "rounds": sz.reps})
 		}
 	}
+	// Shared programs that run commands through the default shell.
+	for i := range c19gen.ExecShared {
+		if !c.Mine(5000 + i) {
+			continue
+		}
+		sh := c19gen.ExecShared[i]
+		cs := c19Case{Mode: "shared", Shared: &sh, Sequential: 2, Goroutines: sz.goroutines, Execs: c19Min(sz.execs, 3), Reps: c19Min(sz.reps, 2)}
+		c.Begin(cs)
+		c19SharedCase(c, cs)
+		c.Count("shared_exec_programs", 1)
+	}
 	stage("shared execution")
+}
+
+func c19Min(a, b int) int {
+	if a < b {
+		return a
+	}
+	return b
 }
 
 // c19StageTimer prints stage durations to stderr when VERIF_C19_TIMING is set (development
@@ -1286,6 +1340,7 @@ func init() {
 				"accepted_multi_function_sources": n(t, 60, 1_100),
 				"error_messages":                  n(t, 12, 20),
 				"shared_programs":                 n(t, 30, 450),
+				"shared_exec_programs":            len(c19gen.ExecShared),
 				"executions_concurrent":           n(t, 21_000, 720_000),
 				"race_log_checks":                 n(t, 90, 1_800),
 				"fingerprint_comparisons":         n(t, 150, 2_800),
